@@ -38,12 +38,12 @@ theorem OrderOK.of_maps_eq {t t' : Tbl} (h : OrderOK t) (hv : t'.vars = t.vars) 
 
 /-! ### what `find_or_add` leaves alone -/
 
-theorem incref_frame {u : Int} {m m' : Mgr} {r : Except Err Unit} (h : incref u m = (r, m')) :
+theorem dddmp_incref_frame {u : Int} {m m' : Mgr} {r : Except Err Unit} (h : incref u m = (r, m')) :
     m'.tbl = m.tbl ∧ m'.ctx = m.ctx := by
   unfold incref at h
   split at h <;> (cases h; exact ⟨rfl, rfl⟩)
 
-theorem findOrAddCore_frame (i : Nat) (v w : Int) (m : Mgr) :
+theorem dddmp_findOrAddCore_frame (i : Nat) (v w : Int) (m : Mgr) :
     (findOrAddCore i v w m).2.tbl.vars = m.tbl.vars ∧
     (findOrAddCore i v w m).2.tbl.l2v = m.tbl.l2v ∧
     (findOrAddCore i v w m).2.ctx = m.ctx := by
@@ -53,16 +53,16 @@ theorem findOrAddCore_frame (i : Nat) (v w : Int) (m : Mgr) :
   all_goals first
     | exact ⟨rfl, rfl, rfl⟩
     | (rename_i ha _ _ _ hb
-       have a := incref_frame ha
-       have b := incref_frame hb
+       have a := dddmp_incref_frame ha
+       have b := dddmp_incref_frame hb
        simp [a.1, a.2, b.1, b.2]
        done)
     | (rename_i ha
-       have a := incref_frame ha
+       have a := dddmp_incref_frame ha
        simp [a.1, a.2]
        done)
 
-theorem findOrAdd_eq_core (i : Nat) (v w : Int) (m : Mgr) (hc : m.ctx = false) :
+theorem dddmp_findOrAdd_eq_core (i : Nat) (v w : Int) (m : Mgr) (hc : m.ctx = false) :
     findOrAdd (i : Int) v w m = findOrAddCore i v w m := by
   have hi : ¬ ((i : Int) < 0) := by omega
   simp [findOrAdd, hc, hi]
@@ -440,7 +440,7 @@ theorem DddmpSt.step (H : FoaSpec) {m : Mgr} {umap : List (Int × Int)} {D : Ddd
       obtain ⟨r, m', hfo, hinv', hext, hrm, hrl, hrd⟩ :=
         H.spec m i _ q hs.inv (by unfold Mgr.nvars at *; omega) hp'm hqm hp'l hql
       have hm' : m' = (findOrAddCore i (if x.els < 0 then -p else p) q m).2 := by rw [hfo]
-      have hfr := findOrAddCore_frame i (if x.els < 0 then -p else p) q m
+      have hfr := dddmp_findOrAddCore_frame i (if x.els < 0 then -p else p) q m
       rw [← hm'] at hfr
       have hsd := H.side m i _ q hs.inv (by unfold Mgr.nvars at *; omega) hp'm hqm hp'l hql
       rw [← hm'] at hsd
@@ -449,7 +449,7 @@ theorem DddmpSt.step (H : FoaSpec) {m : Mgr} {umap : List (Int × Int)} {D : Ddd
       have huabs : (x.u.natAbs : Int) = x.u := by omega
       refine ⟨m', dictSet umap x.u r, ?_, ?_⟩
       · simp [dddmpRebuildNode, dddmpEntryOf, hels, hthn0, hk, hi, hp, hq,
-          findOrAdd_eq_core _ _ _ _ hs.ctx, hfo, huabs]
+          dddmp_findOrAdd_eq_core _ _ _ _ hs.ctx, hfo, huabs]
       · refine ⟨hinv', hfr.2.2.trans hs.ctx, hfr.2.1.trans hs.l2v, ?_, ?_, ?_,
           hs.order.of_maps_eq hsd.1.vars hsd.1.l2v, hex', hsd.1.lastLen.trans hs.off,
           hsd.1.sched.trans hs.sched, hsd.1.roots.trans hs.noRoots, hsd.2.1.trans hs.fire,
@@ -1190,7 +1190,8 @@ theorem dddmpLoad_good_of_foaSpec (H : FoaSpec) (f : DddmpFile) (hf : f.WF) :
       (∀ x ∈ f.nodes, ∃ r, dictGet umap x.u = some r ∧ m.tbl.Mem r ∧
         ∀ α, den m.tbl r (asgOf m.tbl α) = evalFile f α x.u) ∧
       DddmpRootsDenote f m ∧
-      (∀ i2p levels roots', dddmpHeader f = .ok (i2p, levels, roots') → DddmpLoaded levels m) := by
+      (∀ i2p levels roots', dddmpHeader f = .ok (i2p, levels, roots') → DddmpLoaded levels m) ∧
+      (∀ r ∈ m.roots, m.tbl.Mem r) := by
   obtain ⟨m, umap, roots, hload, hinv, hnodes, hroots, hmr, hgood⟩ :=
     dddmpLoadCore_spec_of_foaSpec H f hf
   let g : Int → Int := fun ρ =>
@@ -1210,7 +1211,11 @@ theorem dddmpLoad_good_of_foaSpec (H : FoaSpec) (f : DddmpFile) (hf : f.WF) :
   have hU : loadDddmpU f = .ok ({ m with roots := dedupInts (roots.map g) }, umap) := by
     simp [loadDddmpU, hload, hmap]
   refine ⟨{ m with roots := dedupInts (roots.map g) }, umap, hU, by simp [loadDddmp, hU, Except.map],
-    ?_, hnodes, ⟨?_, ?_⟩, fun i2p levels roots' hh => (hgood i2p levels roots' hh).setRoots _⟩
+    ?_, hnodes, ⟨?_, ?_⟩, fun i2p levels roots' hh => (hgood i2p levels roots' hh).setRoots _, ?_⟩
+  rotate_right
+  · intro r hr
+    obtain ⟨ρ, hρ, rfl⟩ := List.mem_map.mp ((mem_dedupInts _ _).mp hr)
+    exact (hg ρ ((hmem ρ).mp hρ)).2.1
   · exact ⟨hinv.wf, hinv.pred, hinv.freeGe, hinv.free, hinv.refOne, hinv.refDom, hinv.cache⟩
   · intro ρ hρ
     refine ⟨g ρ, ?_, (hg ρ hρ).2.1, (hg ρ hρ).2.2⟩
@@ -1224,7 +1229,7 @@ theorem dddmpLoad_spec_of_foaSpec (H : FoaSpec) (f : DddmpFile) (hf : f.WF) :
       (∀ x ∈ f.nodes, ∃ r, dictGet umap x.u = some r ∧ m.tbl.Mem r ∧
         ∀ α, den m.tbl r (asgOf m.tbl α) = evalFile f α x.u) ∧
       DddmpRootsDenote f m := by
-  obtain ⟨m, umap, h1, h2, h3, h4, h5, _⟩ := dddmpLoad_good_of_foaSpec H f hf
+  obtain ⟨m, umap, h1, h2, h3, h4, h5, _, _⟩ := dddmpLoad_good_of_foaSpec H f hf
   exact ⟨m, umap, h1, h2, h3, h4, h5⟩
 
 end DD
